@@ -143,8 +143,7 @@ func verifC19Modified(cow *roundCowState, g *verifC19Accts) {
 //verif:harness prop=C19 reach=done,committed,discarded,overwrote,fresh,twice unwind=12 budget=200 thorough.budget=1500
 func VerifC19MergeAccounts() {
 	base := verifMakeParent()
-	base.failLookup[3] = vr.Bool("acct3.lookupfails")
-	base.failLookup[4] = vr.Bool("acct4.lookupfails")
+	base.failLookup[3] = vr.Bool("acct3.lookupfails") // a failing ledger lookup is masked by a write, and only by a write
 	var proto config.ConsensusParams
 	block := verifC19Block(base, proto)
 
